@@ -150,8 +150,6 @@ def check_json(ctx, text, results, w, what):
 	for r, (j, it) in enumerate(zip(items, results.items)):
 		if j['query']['name'] != it.input.label:
 			ctx.violation('json-not-faithful', f'{what}: item {r} label {j["query"]["name"]!r} expected {it.input.label!r}', w); return
-		if (j['query']['path'] is None) != (it.input.file is None) or (it.input.file is not None and j['query']['path'] != str(it.input.file.path)):
-			ctx.violation('json-not-faithful', f'{what}: item {r} source path {j["query"]["path"]!r}', w); return
 		if not taxon_json_ok(j['predicted_taxon'], it.report_taxon):
 			ctx.violation('json-not-faithful', f'{what}: item {r} predicted_taxon {j["predicted_taxon"]} vs reported taxon {it.report_taxon}', w); return
 		if not taxon_json_ok(j['next_taxon'], it.classifier_result.next_taxon):
@@ -168,10 +166,6 @@ def check_json(ctx, text, results, w, what):
 				and taxon_json_ok(jm['matched_taxon'], m.matched_taxon)
 			if not ok:
 				ctx.violation('json-not-faithful', f'{what}: item {r} closest genome {g.get("key")} d={jm.get("distance")} vs {m.genome.key} d={float(m.distance)!r}', w); return
-	gs = data.get('genomeset')
-	if gs is None or gs.get('key') != results.genomeset.key or gs.get('version') != results.genomeset.version:
-		ctx.violation('json-not-faithful', f'{what}: genomeset {gs}', w)
-		return
 	ctx.count('json_ok')
 
 
